@@ -77,7 +77,7 @@ func (p *GroupCache) ValidateGroupMembership(email string, allowedGroups []strin
 	sort.Strings(allowedGroups)
 	key := groups.CacheKey{
 		Email:         email,
-		AllowedGroups: strings.Join(allowedGroups, ","),
+		AllowedGroups: groupsCacheKey(allowedGroups),
 	}
 
 	val, ok := p.cache.Get(key)
@@ -107,6 +107,22 @@ func (p *GroupCache) ValidateGroupMembership(email string, allowedGroups []strin
 	}
 	p.cache.Set(key, entry)
 	return validGroups, nil
+}
+
+// groupsCacheKey joins group names into a cache key. Commas and backslashes inside a name are
+// escaped and the empty name is written as `\0`, so that different group lists never share a key
+// (["b,c"] vs ["b","c"]; [] vs [""]); ordinary names are joined with "," as before.
+func groupsCacheKey(groups []string) string {
+	escaped := make([]string, len(groups))
+	for i, group := range groups {
+		if group == "" {
+			escaped[i] = `\0`
+			continue
+		}
+		group = strings.Replace(group, `\`, `\\`, -1)
+		escaped[i] = strings.Replace(group, ",", `\,`, -1)
+	}
+	return strings.Join(escaped, ",")
 }
 
 // Revoke wraps the provider's Revoke function.
